@@ -603,6 +603,19 @@ _EXTRA3 = {
  'C19': ' The store key constructors of fsm/key.go and checkOrderId are TRANSLATED from the source on every run (gen/ExtractedKeys.v, kfunc; '
         'gen/Extracted.v, sfunc) and proved to be the schema of Keys.v (proofs/KeysGen.v): injectivity and prefix-freeness are theorems about the '
         'source\'s own constructors.',
+ 'C15': ' In a third of the healed runs the Byzantine validator re-signs every PRECOMMIT / COMMIT message of a correct leader under its own key and '
+        'delivers the copy right behind the original; in another third it answers them with a message of the same phase whose certificate it signed '
+        'alone (a partial certificate of the same view and payload).',
+ 'C16': ' Also: the store rolled back to an earlier height and continued (proofs at the heights committed after the rollback).',
+ 'C17': ' Also: a recording of everything an honest peer sent in an earlier session played back to a new handshake of the same node (the answering side '
+        'holds no key); an endpoint without identity key that sends the node\'s own identity proof and signed meta straight back (reflection; also a '
+        'correspondence case of the symbolic handshake).',
+ 'C20': ' Also: deposit batches with newcomers into a pool whose provider list is full (5000 entries): tokens conserved, pool balance = reserve ledger, points = total.',
+ 'C03': ' One chain has a block size that several hundred small transactions fill and one block built from a mempool of 900: a FULL block of many small transactions through every path.',
+ 'C08': ' Also: keys with EMPTY values (nil and zero-length) set, committed and deleted in later blocks.',
+ 'C13': ' Also: LoadCommittee for the CURRENT height in the middle of a block (uncommitted stake / pause on the live state machine, a committee question answered by the live state machine first).',
+ 'C12': ' Also: validators that are already unstaking slashed below the minimum stake.',
+ 'C07': ' Also: the four parameter spaces as the state machine reports them (through its caches) before and after every failed transaction and every rejected block; parameter changes of the consensus space with values rejected after the field was set.',
 }
 for _k, _v in _EXTRA3.items():
     PROPS[_k]['rule'] = PROPS[_k]['rule'] + _v
